@@ -417,6 +417,7 @@ func (w *World) BeginBlock(on ...*block.Block) *block.Block {
 	prev := w.Head
 	if len(on) > 0 && on[0] != nil {
 		prev = on[0]
+		w.ColdCache()
 	}
 	b := block.NewBlock(w.Chain.GetKey(), prev.Round+1)
 	b.MinerID = w.Miners[0].ID
@@ -431,6 +432,14 @@ func (w *World) BeginBlock(on ...*block.Block) *block.Block {
 	b.Events = nil
 	return b
 }
+
+// ColdCache gives the chain a fresh (empty) state cache, as a node has after a restart. Every fork from an
+// explicit base block starts with one: the harness forks hundreds of histories from one base block, while the
+// cache keeps only the last 200 blocks' values per key and, on a miss in a block, falls through to older
+// ancestors - after enough sibling forks the base block's entry is evicted and a still older ancestor's value
+// would be served to the new fork. That is an artefact of the fan-out (a real fork that old is long finalised
+// away), so a history never inherits cache contents from its siblings.
+func (w *World) ColdCache() { w.Chain.SetupStateCache() }
 
 // EndBlock seals the current block: sets its state, makes it the head.
 func (w *World) EndBlock() *block.Block {
